@@ -25,6 +25,7 @@ import (
 	"google.golang.org/protobuf/types/known/anypb"
 
 	"github.com/bnb-chain/tss-lib/v2/common"
+	"github.com/bnb-chain/tss-lib/v2/crypto/paillier"
 	eckg "github.com/bnb-chain/tss-lib/v2/ecdsa/keygen"
 	edkg "github.com/bnb-chain/tss-lib/v2/eddsa/keygen"
 	"github.com/bnb-chain/tss-lib/v2/tss"
@@ -96,7 +97,7 @@ type Outcome struct {
 	Errs       []ErrRec `json:"errs"`
 	Panics     []string `json:"panics"` // recovered in the caller's goroutine
 	PanicSites []string `json:"panic_sites"`
-	Ends       []int    `json:"ends"`   // results per node
+	Ends       []int    `json:"ends"` // results per node
 	BadOutput  []string `json:"bad_output"`
 	Erased     []int    `json:"erased"` // old-committee nodes whose share is erased at the end
 	Millis     int64    `json:"ms"`
@@ -133,8 +134,8 @@ func Scenario(name string) (protomc.Scenario, bool) {
 
 type mutCtx struct {
 	q      *big.Int
-	N      *big.Int // the deviator's Paillier modulus (nil for EdDSA)
-	NT     *big.Int // the first addressee's NTilde (nil for EdDSA)
+	N      *big.Int          // the deviator's Paillier modulus (nil for EdDSA)
+	NT     *big.Int          // the first addressee's NTilde (nil for EdDSA)
 	others map[string][]byte // wire bytes of another party's message of the same type (for "other")
 	edw    bool
 }
@@ -947,6 +948,22 @@ func applyConfigDeviation(cfg *netrun.Config, deviator int, op string) {
 				cfg.EdKeys = cp
 			}
 		}
+	case op == "weak-paillier" || op == "weak-ring-pedersen":
+		base := 0
+		if cfg.Proto == netrun.EcdsaResharing {
+			base = len(cfg.EcKeys)
+		}
+		d := deviator - base
+		if d >= 0 && d < len(cfg.PreParams) {
+			cp := append([]eckg.LocalPreParams{}, cfg.PreParams...)
+			w := weakParams()
+			if op == "weak-paillier" {
+				cp[d].PaillierSK = w.PaillierSK
+			} else {
+				cp[d].NTildei, cp[d].H1i, cp[d].H2i, cp[d].Alpha, cp[d].Beta, cp[d].P, cp[d].Q = w.NTildei, w.H1i, w.H2i, w.Alpha, w.Beta, w.P, w.Q
+			}
+			cfg.PreParams = cp
+		}
 	case strings.HasPrefix(op, "dup-params:"):
 		var other int
 		fmt.Sscanf(op, "dup-params:%d", &other)
@@ -961,6 +978,70 @@ func applyConfigDeviation(cfg *netrun.Config, deviator int, op string) {
 			cfg.PreParams = cp
 		}
 	}
+}
+
+var (
+	weakOnce sync.Once
+	weakPP   eckg.LocalPreParams
+)
+
+// weakParams: well-formed but under-sized (1024-bit instead of 2048-bit) Paillier and ring-Pedersen
+// parameters, built deterministically: Paillier primes = 3 mod 4 (so that the modulus proof can be given),
+// NTilde a product of two 512-bit safe primes, h1 a square, h2 = h1^alpha.
+func weakParams() eckg.LocalPreParams {
+	weakOnce.Do(func() {
+		one, two := big.NewInt(1), big.NewInt(2)
+		next := func(label string, safe bool) *big.Int {
+			c := new(big.Int).SetBytes(core.Bytes(label, 64))
+			c.SetBit(c, 511, 1).SetBit(c, 510, 1).SetBit(c, 0, 1).SetBit(c, 1, 1) // 512 bits, = 3 mod 4
+			for ; ; c.Add(c, big.NewInt(4)) {
+				if !c.ProbablyPrime(12) {
+					continue
+				}
+				if safe {
+					h := new(big.Int).Rsh(c, 1)
+					if !h.ProbablyPrime(12) {
+						continue
+					}
+				}
+				return new(big.Int).Set(c)
+			}
+		}
+		P, Q := next("weak-paillier-p", false), next("weak-paillier-q", false)
+		N := new(big.Int).Mul(P, Q)
+		pm, qm := new(big.Int).Sub(P, one), new(big.Int).Sub(Q, one)
+		phi := new(big.Int).Mul(pm, qm)
+		lam := new(big.Int).Div(phi, new(big.Int).GCD(nil, nil, pm, qm))
+		weakPP.PaillierSK = &paillier.PrivateKey{PublicKey: paillier.PublicKey{N: N}, LambdaN: lam, PhiN: phi, P: P, Q: Q}
+		sp, sq := next("weak-ntilde-p", true), next("weak-ntilde-q", true)
+		p, q := new(big.Int).Rsh(sp, 1), new(big.Int).Rsh(sq, 1)
+		nt := new(big.Int).Mul(sp, sq)
+		f := new(big.Int).SetBytes(core.Bytes("weak-ntilde-f", 100))
+		f.Mod(f, nt)
+		h1 := new(big.Int).Exp(f, two, nt)
+		pq := new(big.Int).Mul(p, q)
+		alpha := new(big.Int).SetBytes(core.Bytes("weak-ntilde-alpha", 100))
+		alpha.Mod(alpha, pq)
+		for new(big.Int).GCD(nil, nil, alpha, pq).Cmp(one) != 0 {
+			alpha.Add(alpha, one)
+		}
+		beta := new(big.Int).ModInverse(alpha, pq)
+		weakPP.NTildei, weakPP.H1i, weakPP.H2i = nt, h1, new(big.Int).Exp(h1, alpha, nt)
+		weakPP.Alpha, weakPP.Beta, weakPP.P, weakPP.Q = alpha, beta, p, q
+	})
+	return weakPP
+}
+
+// WeakCases: parties that bring under-sized Paillier / ring-Pedersen parameters (ECDSA keygen parties and new
+// resharing members).
+func WeakCases(scName string, positions []int) []Case {
+	var cases []Case
+	for _, p := range positions {
+		for _, op := range []string{"weak-paillier", "weak-ring-pedersen"} {
+			cases = append(cases, Case{Scenario: scName, Deviator: p, Dev: Dev{MsgType: "<config>", Index: -1, Op: op}})
+		}
+	}
+	return cases
 }
 
 // ConfigCases: wrong-secret and duplicated-parameter parties for a scenario.
